@@ -155,6 +155,11 @@ pub fn run(ctx: &Ctx) {
             if pk[12..28] != seeds[0].1 {
                 return fail("public-key I", "H20 root identifier");
             }
+            for i in 1..c.levels.len() {
+                if parsed.pubs[i - 1].id != seeds[i].1 {
+                    return fail("sig-mismatch pub", format!("level {} tree identifier differs from the derivation at parent leaf {}", i, qs[i - 1]));
+                }
+            }
             // randomizer of the bottom signature is the seed-derived per-leaf value
             let l = c.levels.len();
             if parsed.sigs[l - 1].c != hss::randomizer(&m, &seeds[l - 1].0, &seeds[l - 1].1, qs[l - 1]) {
